@@ -144,21 +144,33 @@ func serializeSignedMessage(e *Exchange, certSha256 []byte, validityUrl string, 
 		// "5. The 8-byte big-endian encoding of the length in bytes of validity-url, followed by the bytes of validity-url." [spec text]
 		//bigendian
 		vurl := []byte(validityUrl)
-		vurlLenBytes, _ := bigendian.EncodeBytesUint(int64(len(vurl)), 8)
+		vurlLenBytes, err := bigendian.EncodeBytesUint(int64(len(vurl)), 8)
+		if err != nil {
+			return nil, err
+		}
 		buf.Write(vurlLenBytes)
 		buf.Write(vurl)
 
 		// "6. The 8-byte big-endian encoding of date." [spec text]
-		dateBytes, _ := bigendian.EncodeBytesUint(date, 8)
+		dateBytes, err := bigendian.EncodeBytesUint(date, 8)
+		if err != nil {
+			return nil, err
+		}
 		buf.Write(dateBytes)
 
 		// "7. The 8-byte big-endian encoding of expires." [spec text]
-		expiresBytes, _ := bigendian.EncodeBytesUint(expires, 8)
+		expiresBytes, err := bigendian.EncodeBytesUint(expires, 8)
+		if err != nil {
+			return nil, err
+		}
 		buf.Write(expiresBytes)
 
 		// "8. The 8-byte big-endian encoding of the length in bytes of requestUrl, followed by the bytes of requestUrl." [spec text]
 		rurl := []byte(e.RequestURI)
-		rurlLenBytes, _ := bigendian.EncodeBytesUint(int64(len(rurl)), 8)
+		rurlLenBytes, err := bigendian.EncodeBytesUint(int64(len(rurl)), 8)
+		if err != nil {
+			return nil, err
+		}
 		buf.Write(rurlLenBytes)
 		buf.Write(rurl)
 
@@ -167,7 +179,10 @@ func serializeSignedMessage(e *Exchange, certSha256 []byte, validityUrl string, 
 		if err := e.encodeExchangeHeaders(cbor.NewEncoder(headerBuf)); err != nil {
 			return nil, err
 		}
-		headerLenBytes, _ := bigendian.EncodeBytesUint(int64(headerBuf.Len()), 8)
+		headerLenBytes, err := bigendian.EncodeBytesUint(int64(headerBuf.Len()), 8)
+		if err != nil {
+			return nil, err
+		}
 		buf.Write(headerLenBytes)
 		headerBuf.WriteTo(&buf)
 
